@@ -115,14 +115,16 @@ struct Machine {
 
   // Load an image file (length word, then little-endian words); returns
   // number of image words, or -1 if the file is too short.
-  long loadImage(const std::string &file) {
+  // allowShort: a file that ends before the announced number of words is an image whose missing bytes are zero
+  long loadImage(const std::string &file, bool allowShort = false) {
     if (file.size() < 4) return -1;
     auto rd = [&](size_t o) {
-      return (uint32_t)(unsigned char)file[o] | ((uint32_t)(unsigned char)file[o + 1] << 8) |
-             ((uint32_t)(unsigned char)file[o + 2] << 16) | ((uint32_t)(unsigned char)file[o + 3] << 24);
+      uint32_t v = 0;
+      for (int l = 0; l < 4; l++) if (o + l < file.size()) v |= (uint32_t)(unsigned char)file[o + l] << (8 * l);
+      return v;
     };
     uint32_t words = rd(0);
-    if ((uint64_t)words * 4 + 4 > file.size() || words > MEM_WORDS) return -1;
+    if ((!allowShort && (uint64_t)words * 4 + 4 > file.size()) || words > MEM_WORDS) return -1;
     for (uint32_t i = 0; i < words; i++) mem[i] = rd(4 + 4 * (size_t)i);
     return (long)words;
   }
